@@ -4,7 +4,7 @@ Vocabulary (A-ATTR: attribute lookup on a class is deterministic and free of sid
 or fails with AttributeError - lookups raising anything else are the known finding C18.*_twin_agrees):"""
 import z3
 
-from .cxx.model import Bool, Int, Ref, Str
+from .cxx.model import NULL, Bool, Int, Ref, Str
 
 nt_is_type = z3.Function('nt_is_type', Ref, Bool)                 # isinstance(c, type)   / PyType_Check
 nt_tuple_subclass = z3.Function('nt_tuple_subclass', Ref, Bool)   # issubclass(c, tuple)  / Py_TPFLAGS_TUPLE_SUBCLASS
@@ -46,3 +46,30 @@ def NT_impl(c):
                   z3.ForAll([i], z3.Implies(z3.And(0 <= i, i < nt_len(f)), nt_exact_str(nt_item(f, i)))),
                   nt_has(c, nt_name('_make')), nt_callable(nt_attr(c, nt_name('_make'))),
                   nt_has(c, nt_name('_asdict')), nt_callable(nt_attr(c, nt_name('_asdict'))))
+
+
+# ---- struct sequence classes -----------------------------------------------------------------------------------------
+SS_NAMES = ('n_fields', 'n_sequence_fields', 'n_unnamed_fields')
+ss_bases = z3.Function('ss_bases', Ref, Ref)                      # cls.__bases__          / type_object->tp_bases
+ss_exact_int = z3.Function('ss_exact_int', Ref, Bool)             # type(v) is int         / PyLong_CheckExact
+ss_is_int = z3.Function('ss_is_int', Ref, Bool)                   # isinstance(v, int)     / PyLong_Check
+ss_basetype = z3.Function('ss_basetype', Ref, Bool)               # the class may be subclassed (Py_TPFLAGS_BASETYPE)
+ss_tuple_type = z3.Const('py_tuple', Ref)                         # the object `tuple`     / &PyTuple_Type
+
+
+def ss_names_distinct():
+    return z3.Distinct(*[nt_name(n) for n in SS_NAMES])
+
+
+def ss_bases_is_tuple_only(c):
+    """`cls.__bases__ == (tuple,)` for the bases tuple of a class: one base, and it is `tuple` itself."""
+    b = ss_bases(c)
+    return z3.And(nt_exact_tuple(b), nt_len(b) == 1, nt_item(b, 0) == ss_tuple_type)
+
+
+def SS_impl(c):
+    """What IsStructSequenceClassImpl decides for a type object (its only caller IsStructSequenceClass does PyType_Check
+    first): direct and only base `tuple`, the three counters present and exact ints, and the class is final."""
+    return z3.And(nt_tuple_subclass(c), ss_bases(c) != NULL, ss_bases_is_tuple_only(c),
+                  *[z3.And(nt_has(c, nt_name(n)), ss_exact_int(nt_attr(c, nt_name(n)))) for n in SS_NAMES],
+                  z3.Not(ss_basetype(c)))
